@@ -21,9 +21,11 @@ type Var struct {
 
 // features maps a run-time written variable to the input feature that makes a load reach it.
 var features = map[string]string{
-	"loader.versionWarning": "version",
-	"dotenv.formats":        "api", // written only by dotenv.RegisterFormat, a registration API, never by a load
-	"graph.VerifYield":      "api", // verification hook (guard verif)
+	"loader.versionWarning":   "version",
+	"dotenv.formats":          "api",    // written only by dotenv.RegisterFormat, a registration API, never by a load
+	"graph.VerifYield":        "api",    // verification hook (guard verif)
+	"paths.verifResolverKeys": "always", // verification hook (guard verif), written under verifMu by every load
+	"loader.verifPhaseHook":   "api",    // verification hook (guard verif), atomic pointer set by the harness
 }
 
 func rootIdent(e ast.Expr) *ast.Ident {
@@ -141,8 +143,25 @@ func Scan(root string) (vars []Var, unknown []string, err error) {
 						if id, ok := x.Fun.(*ast.Ident); ok && id.Name == "delete" && len(x.Args) > 0 {
 							mark(x.Args[0])
 						}
+						if id, ok := x.Fun.(*ast.Ident); ok && id.Name == "copy" && len(x.Args) > 0 {
+							mark(x.Args[0])
+						}
 						if se, ok := x.Fun.(*ast.SelectorExpr); ok && (se.Sel.Name == "Lock" || se.Sel.Name == "RLock") {
 							locks[fn] = true
+						}
+						// in-place library mutators: sort.Slice(v, ..), sort.Strings(v), slices.Sort(v), slices.Reverse(v), ...
+						if se, ok := x.Fun.(*ast.SelectorExpr); ok && len(x.Args) > 0 {
+							if pk, ok := se.X.(*ast.Ident); ok && (pk.Name == "sort" || pk.Name == "slices") &&
+								(strings.HasPrefix(se.Sel.Name, "Sort") || strings.HasPrefix(se.Sel.Name, "Slice") || strings.HasPrefix(se.Sel.Name, "Stable") ||
+									se.Sel.Name == "Strings" || se.Sel.Name == "Ints" || se.Sel.Name == "Reverse") {
+								mark(x.Args[0])
+							}
+						}
+						// the address of a package-level variable handed to a callee
+						for _, a := range x.Args {
+							if u, ok := a.(*ast.UnaryExpr); ok && u.Op == token.AND {
+								mark(u.X)
+							}
 						}
 					case *ast.Ident:
 						if globals[x.Name] && !locals[x.Name] {
